@@ -175,4 +175,77 @@ theorem slice_step_elems {α : Type} (xs : List α) (k : Nat) (hk : 0 < k) :
 theorem slice_step_zero (n : Nat) (a b : Option Int) : sliceIndices n a b (some 0) = .error .valueError := by
   unfold sliceIndices; simp
 
+/-! ### negative steps `[::-k]` -/
+
+theorem neg_step_count (n k : Nat) (hk : 0 < k) :
+    (if (n : Int) - 1 > -1 then (((n : Int) - 1 - -1 - 1) / - -(k : Int) + 1).toNat else 0) = (n + k - 1) / k := by
+  have e0 : (- -(k : Int)) = (k : Int) := Int.neg_neg _
+  rw [e0]
+  have := step_count n k hk
+  rw [← this]
+  have e1 : ((n : Int) - 1 - -1 - 1) = ((n : Int) - 0 - 1) := by omega
+  rw [e1]
+  by_cases h : (0 : Int) < (n : Int)
+  · have h' : (n : Int) - 1 > -1 := by omega
+    simp only [h, h', if_true]
+  · have h' : ¬ ((n : Int) - 1 > -1) := by omega
+    simp only [h, h', if_false]
+
+/-- **`xs[::-k]`, `k > 0`, selects positions `n-1, n-1-k, n-1-2k, …`** — `⌈n / k⌉` of them, all inside the list -/
+theorem slice_neg_step_indices (n k : Nat) (hk : 0 < k) :
+    sliceIndices n none none (some (-(k : Int))) = .ok ((List.range ((n + k - 1) / k)).map (fun j => n - 1 - j * k)) ∧
+    (∀ j, j < (n + k - 1) / k → j * k < n) := by
+  constructor
+  · unfold sliceIndices
+    have h0 : ¬ (-(k : Int) = 0) := by omega
+    have h1 : (-(k : Int) < 0) := by omega
+    have h2 : ¬ (-(k : Int) > 0) := by omega
+    simp only [Option.getD_some, h0, h1, h2, if_false, if_true]
+    rw [neg_step_count n k hk]
+    congr 1
+    apply List.map_congr_left
+    intro j _
+    have e : -(k : Int) * (j : Int) = -(((j * k : Nat)) : Int) := by
+      rw [Int.neg_mul, Int.mul_comm, Int.natCast_mul]
+    rw [e]
+    generalize j * k = m
+    omega
+  · intro j hj'
+    have h3 : (j + 1) * k ≤ n + k - 1 := (Nat.le_div_iff_mul_le hk).mp hj'
+    rw [Nat.add_mul] at h3
+    omega
+
+/-- the elements `xs[::-k]` returns: the `j`-th is `xs[n - 1 - j * k]` -/
+theorem slice_neg_step_elems {α : Type} (xs : List α) (k : Nat) (hk : 0 < k) :
+    (pick xs ((List.range ((xs.length + k - 1) / k)).map (fun j => xs.length - 1 - j * k))).length = (xs.length + k - 1) / k ∧
+    ∀ j, j < (xs.length + k - 1) / k →
+      (pick xs ((List.range ((xs.length + k - 1) / k)).map (fun j => xs.length - 1 - j * k)))[j]? = xs[xs.length - 1 - j * k]? := by
+  have hb := (slice_neg_step_indices xs.length k hk).2
+  generalize (xs.length + k - 1) / k = c at hb ⊢
+  have hp : ∀ c', c' ≤ c → (pick xs ((List.range c').map (fun j => xs.length - 1 - j * k))).length = c' ∧
+      ∀ j, j < c' → (pick xs ((List.range c').map (fun j => xs.length - 1 - j * k)))[j]? = xs[xs.length - 1 - j * k]? := by
+    intro c'
+    induction c' with
+    | zero => intro _; simp [pick]
+    | succ m ih =>
+      intro hm
+      obtain ⟨l1, l2⟩ := ih (by omega)
+      have hin0 : m * k < xs.length := hb m (by omega)
+      have hin : xs.length - 1 - m * k < xs.length := by omega
+      have e : pick xs ((List.range (m + 1)).map (fun j => xs.length - 1 - j * k)) =
+          pick xs ((List.range m).map (fun j => xs.length - 1 - j * k)) ++ [xs[xs.length - 1 - m * k]] := by
+        unfold pick
+        rw [List.range_succ, List.map_append, List.filterMap_append]
+        simp [List.getElem?_eq_getElem hin]
+      rw [e]
+      refine ⟨by simp [l1], ?_⟩
+      intro j hj
+      rcases Nat.lt_or_ge j m with h | h
+      · rw [List.getElem?_append_left (by omega)]; exact l2 j h
+      · have : j = m := by omega
+        subst this
+        rw [List.getElem?_append_right (by omega), l1]
+        simp [List.getElem?_eq_getElem hin]
+  exact hp c (Nat.le_refl _)
+
 end Sq
